@@ -35,3 +35,35 @@ Proof.
   destruct (sync_projects_m frepr cf false (i_opts i) (i_src i) (i_dst i)) as [dst' e]. cbn [fst ob_dst] in *.
   subst dst'. apply proj_eqb_refl. assumption.
 Qed.
+
+From SV Require Export SyncDryProofs.
+
+(* dry_run_no_change for the repaired code (F3, F4, F16), project level: nothing changes and the exception
+   class is that of the real run *)
+Lemma dry_run_no_change_fixed : forall frepr cf, fix_F3 cf = true -> fix_F4 cf = true -> fix_F16 cf = true ->
+  forall o src dst,
+  NoDup (map fst (p_ws src)) -> (forall kn, In kn (p_ws src) -> job_ok (snd kn)) ->
+  wf (JObj (read_doc FN_PDOC (p_top src))) = true ->
+  fst (sync_projects_m frepr cf false (set_dry o true) src dst) = dst
+  /\ snd (sync_projects_m frepr cf false (set_dry o true) src dst)
+     = snd (sync_projects_m frepr cf false (set_dry o false) src dst).
+Proof.
+  intros frepr cf H3 H4 H16 o src dst Hnd Hok Hp. split.
+  - apply sync_projects_dry_id; try assumption; [reflexivity|].
+    split; [apply (wf_obj_inv _ Hp)|].
+    intros id sd Hin. destruct (Hok (id, Dir sd) Hin) as (_ & W & _). apply (wf_obj_inv _ W).
+  - apply sync_projects_dry_same_exception; assumption.
+Qed.
+
+(* ... and job level, for an existing destination job *)
+Lemma dry_run_no_change_fixed_job : forall frepr cf, fix_F3 cf = true -> fix_F4 cf = true -> fix_F16 cf = true ->
+  forall o deep fp sdir ddir dsp, job_ok (Dir sdir) ->
+  fst (sync_jobs_m frepr cf (set_dry o true) deep fp (Some sdir) (Some ddir) dsp) = Some ddir
+  /\ snd (sync_jobs_m frepr cf (set_dry o true) deep fp (Some sdir) (Some ddir) dsp)
+     = snd (sync_jobs_m frepr cf (set_dry o false) deep fp (Some sdir) (Some ddir) dsp).
+Proof.
+  intros frepr cf H3 H4 H16 o deep fp sdir ddir dsp (W1 & W2 & W3 & W4). split.
+  - apply sync_jobs_dry_id; [reflexivity|left; assumption|].
+    intros sd Hsd. inversion Hsd; subst. split; [left; assumption|apply (wf_obj_inv _ W2)].
+  - apply sync_jobs_dry_same_exception; assumption.
+Qed.
